@@ -1,6 +1,6 @@
 /-
-  Invariants of the ICMPv6 hunt machine (Model/Icmp6Hunt.lean), the in-flight bound after StopHunt /
-  Close, and the router-advertisement learning step against Spec/NdpWire.lean.
+  Invariants of the ICMPv6 hunt machine (Model/Icmp6Hunt.lean), silence after StopHunt / Close
+  (`quiet_run`), and the router-advertisement learning step against Spec/NdpWire.lean.
 -/
 import PacketVerif.Model.Icmp6Hunt
 import PacketVerif.Lemmas.NdpExact
@@ -20,6 +20,9 @@ structure Inv (s : State) : Prop where
   huntStarted : ∀ m ∈ s.hunt, m ∈ s.started
   fresh : ∀ i, s.nloops ≤ i → (s.loops i).pc = .done
   defKey : ∀ ip, s.defaultRouter = some ip → ip ∈ keys s
+  /-- the handler mutex is held across a batch exactly by the loop that is writing it: a loop is
+      between its check and its last advertisement iff it is the holder (so at most one loop is) -/
+  holderIff : ∀ i, s.holder = some i ↔ ∃ p, (s.loops i).pc = .send p
 
 theorem inv_init : Inv {} := by
   constructor <;> simp [keys]
@@ -42,7 +45,8 @@ theorem keys_learn (s : State) (r : RaIn) (hdr : RaHeader) (o : Options) :
 theorem learn_fields (s : State) (r : RaIn) (hdr : RaHeader) (o : Options) :
     (learn s r hdr o).hunt = s.hunt ∧ (learn s r hdr o).closed = s.closed ∧
     (learn s r hdr o).loops = s.loops ∧ (learn s r hdr o).nloops = s.nloops ∧
-    (learn s r hdr o).started = s.started ∧ (learn s r hdr o).rep = s.rep := by
+    (learn s r hdr o).started = s.started ∧ (learn s r hdr o).rep = s.rep ∧
+    (learn s r hdr o).holder = s.holder := by
   unfold learn; split <;> simp
 
 theorem learn_default (s : State) (r : RaIn) (hdr : RaHeader) (o : Options) :
@@ -95,50 +99,76 @@ theorem processRA_cases (s : State) (r : RaIn) (s' : State) (ok : Bool) (h : pro
       · right; left; exact h1
       · right; right; exact h2
 
+/-- the RA step of the machine: same three cases (the mutex guard only disables the step) -/
+theorem step_ra_cases (s : State) (r : RaIn) (s' : State) (o : Out) (h : step s (.ra r) = some (s', o)) :
+    s' = s ∨ s' = { s with rep := s.rep + 1 } ∨ ∃ hdr o', s' = learn { s with rep := s.rep + 1 } r hdr o' := by
+  simp only [step] at h
+  split at h
+  · cases h
+  · split at h
+    · rename_i s1 ok hp
+      cases h
+      exact processRA_cases s r _ ok hp
+    · cases h
+
 theorem inv_of_same_core {s s' : State} (h : Inv s) (hh : s'.hunt = s.hunt) (hl : s'.loops = s.loops)
-    (hn : s'.nloops = s.nloops) (hs : s'.started = s.started)
+    (hn : s'.nloops = s.nloops) (hs : s'.started = s.started) (hho : s'.holder = s.holder)
     (hk : ∀ k, k ∈ keys s → k ∈ keys s')
     (hd : s.defaultRouter.isSome = true → s'.defaultRouter.isSome = true)
     (hdk : ∀ ip, s'.defaultRouter = some ip → ip ∈ keys s') : Inv s' := by
-  obtain ⟨h1, h2, h3, h4, h5, h6⟩ := h
-  refine ⟨by rw [hh]; exact h1, ?_, ?_, ?_, ?_, hdk⟩
+  obtain ⟨h1, h2, h3, h4, h5, h6, h7⟩ := h
+  refine ⟨by rw [hh]; exact h1, ?_, ?_, ?_, ?_, hdk, ?_⟩
   · intro i p hp; rw [hl] at hp
     obtain ⟨a, b, c⟩ := h2 i p hp
     exact ⟨hd a, b, fun r hr => hk r (c r hr)⟩
   · intro i hi; rw [hl] at hi ⊢; rw [hs]; exact h3 i hi
   · intro m hm; rw [hh] at hm; rw [hs]; exact h4 m hm
   · intro i hi; rw [hl]; rw [hn] at hi; exact h5 i hi
+  · intro i; rw [hho, hl]; exact h7 i
+
+/-- a loop other than the holder moves between states that are not `send`: the holder relation is kept -/
+theorem holderIff_upd {s : State} (h7 : ∀ i, s.holder = some i ↔ ∃ p, (s.loops i).pc = .send p)
+    (i : Nat) (l : Loop) (hold : ∀ p, (s.loops i).pc ≠ .send p) (hnew : ∀ p, l.pc ≠ .send p) :
+    ∀ j, s.holder = some j ↔ ∃ p, ((updLoop s.loops i l) j).pc = .send p := by
+  intro j
+  by_cases hj : j = i
+  · subst hj
+    simp only [updLoop_same]
+    constructor
+    · intro hh; obtain ⟨p, hp⟩ := (h7 j).1 hh; exact absurd hp (hold p)
+    · intro ⟨p, hp⟩; exact absurd hp (hnew p)
+  · simp only [updLoop_other _ _ _ _ hj]; exact h7 j
 
 theorem inv_step {s s' : State} {e : Event} {o : Out} (h : Inv s) (hs : step s e = some (s', o)) : Inv s' := by
   cases e with
   | envRepeat v =>
     simp only [step] at hs; cases hs
-    exact inv_of_same_core h rfl rfl rfl rfl (fun _ hk => hk) (fun hd => hd) h.defKey
+    exact inv_of_same_core h rfl rfl rfl rfl rfl (fun _ hk => hk) (fun hd => hd) h.defKey
   | close =>
-    simp only [step] at hs; cases hs
-    exact inv_of_same_core h rfl rfl rfl rfl (fun _ hk => hk) (fun hd => hd) h.defKey
-  | ra r =>
     simp only [step] at hs
     split at hs
-    · rename_i s1 ok hp
-      cases hs
-      rcases processRA_cases s r _ ok hp with rfl | rfl | ⟨hdr, o', rfl⟩
-      · exact h
-      · exact inv_of_same_core h rfl rfl rfl rfl (fun _ hk => hk) (fun hd => hd) h.defKey
-      · obtain ⟨f1, _, f3, f4, f5, _⟩ := learn_fields { s with rep := s.rep + 1 } r hdr o'
-        obtain ⟨g1, g2, g3⟩ := learn_default { s with rep := s.rep + 1 } r hdr o'
-        refine inv_of_same_core h f1 f3 f4 f5 (keys_learn { s with rep := s.rep + 1 } r hdr o') g2 ?_
-        intro ip hip
-        rcases g1 with g | g
-        · rw [g] at hip; exact keys_learn { s with rep := s.rep + 1 } r hdr o' ip (h.defKey ip hip)
-        · rw [g] at hip; cases hip; exact g3
     · cases hs
+      exact inv_of_same_core h rfl rfl rfl rfl rfl (fun _ hk => hk) (fun hd => hd) h.defKey
+    · cases hs
+  | ra r =>
+    rcases step_ra_cases s r s' o hs with rfl | rfl | ⟨hdr, o', rfl⟩
+    · exact h
+    · exact inv_of_same_core h rfl rfl rfl rfl rfl (fun _ hk => hk) (fun hd => hd) h.defKey
+    · obtain ⟨f1, _, f3, f4, f5, _, f7⟩ := learn_fields { s with rep := s.rep + 1 } r hdr o'
+      obtain ⟨g1, g2, g3⟩ := learn_default { s with rep := s.rep + 1 } r hdr o'
+      refine inv_of_same_core h f1 f3 f4 f5 f7 (keys_learn { s with rep := s.rep + 1 } r hdr o') g2 ?_
+      intro ip hip
+      rcases g1 with g | g
+      · rw [g] at hip; exact keys_learn { s with rep := s.rep + 1 } r hdr o' ip (h.defKey ip hip)
+      · rw [g] at hip; cases hip; exact g3
   | stopHunt mac eff =>
     simp only [step] at hs
     split at hs
-    · cases hs
-      obtain ⟨h1, h2, h3, h4, h5, h6⟩ := h
-      exact ⟨h1.erase mac, h2, h3, fun m hm => h4 m (List.mem_of_mem_erase hm), h5, h6⟩
+    · split at hs
+      · cases hs
+        obtain ⟨h1, h2, h3, h4, h5, h6, h7⟩ := h
+        exact ⟨h1.erase mac, h2, h3, fun m hm => h4 m (List.mem_of_mem_erase hm), h5, h6, h7⟩
+      · cases hs
     · cases hs; exact h
   | startHunt mac cls =>
     simp only [step] at hs
@@ -147,105 +177,53 @@ theorem inv_step {s s' : State} {e : Event} {o : Out} (h : Inv s) (hs : step s e
     · split at hs
       · cases hs; exact h
       · split at hs
-        · cases hs; exact h
-        · rename_i hnm
-          cases hs
-          obtain ⟨h1, h2, h3, h4, h5, h6⟩ := h
-          refine ⟨?_, ?_, ?_, ?_, ?_, h6⟩
-          · exact List.nodup_append.2 ⟨h1, by simp, by
-              intro a ha b hb; simp at hb; subst hb; intro he; subst he; exact hnm ha⟩
-          · intro i p hp
-            by_cases hi : i = s.nloops
-            · subst hi; simp at hp
-            · simp only [updLoop_other _ _ _ _ hi] at hp; exact h2 i p hp
-          · intro i hi
-            by_cases hi' : i = s.nloops
-            · subst hi'; simp
-            · simp only [updLoop_other _ _ _ _ hi'] at hi ⊢
-              exact List.mem_cons_of_mem _ (h3 i hi)
-          · intro m hm
-            simp at hm
-            rcases hm with hm | rfl
-            · exact List.mem_cons_of_mem _ (h4 m hm)
-            · simp
-          · intro i hi
-            have : i ≠ s.nloops := by simp at hi; omega
-            simp only [updLoop_other _ _ _ _ this]
-            exact h5 i (by simp at hi; omega)
+        · cases hs
+        · split at hs
+          · cases hs; exact h
+          · rename_i hnm
+            cases hs
+            obtain ⟨h1, h2, h3, h4, h5, h6, h7⟩ := h
+            have hfresh : ∀ p, (s.loops s.nloops).pc ≠ .send p := by
+              intro p hp; rw [h5 s.nloops (Nat.le_refl _)] at hp; cases hp
+            refine ⟨?_, ?_, ?_, ?_, ?_, h6, ?_⟩
+            · exact List.nodup_append.2 ⟨h1, by simp, by
+                intro a ha b hb; simp at hb; subst hb; intro he; subst he; exact hnm ha⟩
+            · intro i p hp
+              by_cases hi : i = s.nloops
+              · subst hi; simp at hp
+              · simp only [updLoop_other _ _ _ _ hi] at hp; exact h2 i p hp
+            · intro i hi
+              by_cases hi' : i = s.nloops
+              · subst hi'; simp
+              · simp only [updLoop_other _ _ _ _ hi'] at hi ⊢
+                exact List.mem_cons_of_mem _ (h3 i hi)
+            · intro m hm
+              simp at hm
+              rcases hm with hm | rfl
+              · exact List.mem_cons_of_mem _ (h4 m hm)
+              · simp
+            · intro i hi
+              have : i ≠ s.nloops := by simp at hi; omega
+              simp only [updLoop_other _ _ _ _ this]
+              exact h5 i (by simp at hi; omega)
+            · exact holderIff_upd h7 s.nloops _ hfresh (by intro p hp; cases hp)
   | check i =>
     simp only [step] at hs
-    obtain ⟨h1, h2, h3, h4, h5, h6⟩ := h
-    have upd : ∀ (pc' : Pc), (∀ p, pc' = .send p → s.defaultRouter.isSome = true ∧ p ≠ [] ∧ ∀ r ∈ p, r ∈ keys s) →
-        (s.loops i).pc ≠ .done →
-        Inv { s with loops := updLoop s.loops i { s.loops i with pc := pc' } } := by
-      intro pc' hpc hnd
-      refine ⟨h1, ?_, ?_, h4, ?_, h6⟩
-      · intro j p hp
-        by_cases hj : j = i
-        · subst hj; simp at hp; exact hpc p hp
-        · simp only [updLoop_other _ _ _ _ hj] at hp; exact h2 j p hp
-      · intro j hj
-        by_cases hji : j = i
-        · subst hji; simp; exact h3 j hnd
-        · simp only [updLoop_other _ _ _ _ hji] at hj ⊢; exact h3 j hj
-      · intro j hj
-        by_cases hji : j = i
-        · subst hji; exact absurd (h5 j hj) hnd
-        · simp only [updLoop_other _ _ _ _ hji]; exact h5 j hj
+    obtain ⟨h1, h2, h3, h4, h5, h6, h7⟩ := h
     split at hs
-    · rename_i hc
+    · rename_i hcf
+      obtain ⟨hc, hfree⟩ := hcf
       have hnd : (s.loops i).pc ≠ .done := by rw [hc]; simp
-      split at hs
-      · cases hs
-        -- the loop ends: pc = done
-        refine ⟨h1, ?_, ?_, h4, ?_, h6⟩
+      have hold : ∀ p, (s.loops i).pc ≠ .send p := by intro p hp; rw [hc] at hp; cases hp
+      -- the loop moves to a state that is not `send`: wait or done
+      have upd : ∀ (pc' : Pc), (∀ p, pc' ≠ .send p) → (pc' = .done ∨ pc' ≠ .done) →
+          Inv { s with loops := updLoop s.loops i { s.loops i with pc := pc' } } := by
+        intro pc' hpc _
+        refine ⟨h1, ?_, ?_, h4, ?_, h6, holderIff_upd h7 i _ hold hpc⟩
         · intro j p hp
           by_cases hj : j = i
-          · subst hj; simp at hp
+          · subst hj; simp at hp; exact absurd hp (hpc p)
           · simp only [updLoop_other _ _ _ _ hj] at hp; exact h2 j p hp
-        · intro j hj
-          by_cases hji : j = i
-          · subst hji; simp at hj
-          · simp only [updLoop_other _ _ _ _ hji] at hj ⊢; exact h3 j hj
-        · intro j hj
-          by_cases hji : j = i
-          · subst hji; simp
-          · simp only [updLoop_other _ _ _ _ hji]; exact h5 j hj
-      · split at hs
-        · rename_i hdef
-          split at hs
-          · cases hs; exact upd .wait (by intro p hp; cases hp) hnd
-          · rename_i l hl
-            cases hs
-            apply upd _ _ hnd
-            intro p hp
-            cases hp
-            refine ⟨hdef, ?_, fun r hr => hr⟩
-            intro he; exact hl he
-        · cases hs; exact upd .wait (by intro p hp; cases hp) hnd
-    · cases hs
-  | send i r =>
-    simp only [step] at hs
-    obtain ⟨h1, h2, h3, h4, h5, h6⟩ := h
-    split at hs
-    · rename_i p hp
-      split at hs
-      · rename_i hr
-        cases hs
-        obtain ⟨a, b, c⟩ := h2 i p hp
-        have hnd : (s.loops i).pc ≠ .done := by rw [hp]; simp
-        refine ⟨h1, ?_, ?_, h4, ?_, h6⟩
-        · intro j q hq
-          by_cases hj : j = i
-          · subst hj
-            simp at hq
-            split at hq
-            · cases hq
-            · rename_i hne
-              cases hq
-              refine ⟨a, ?_, fun x hx => c x (List.mem_of_mem_erase hx)⟩
-              intro he; apply hne; simpa using he
-          · simp only [updLoop_other _ _ _ _ hj] at hq; exact h2 j q hq
         · intro j hj
           by_cases hji : j = i
           · subst hji; simp; exact h3 j hnd
@@ -254,16 +232,109 @@ theorem inv_step {s s' : State} {e : Event} {o : Out} (h : Inv s) (hs : step s e
           by_cases hji : j = i
           · subst hji; exact absurd (h5 j hj) hnd
           · simp only [updLoop_other _ _ _ _ hji]; exact h5 j hj
+      split at hs
+      · cases hs; exact upd .done (by intro p hp; cases hp) (Or.inl rfl)
+      · split at hs
+        · rename_i hdef
+          split at hs
+          · cases hs; exact upd .wait (by intro p hp; cases hp) (Or.inr (by simp))
+          · rename_i l hl
+            cases hs
+            -- the loop takes the mutex for its batch
+            refine ⟨h1, ?_, ?_, h4, ?_, h6, ?_⟩
+            · intro j p hp
+              by_cases hj : j = i
+              · subst hj; simp at hp; subst hp
+                exact ⟨hdef, fun he => hl he, fun r hr => hr⟩
+              · simp only [updLoop_other _ _ _ _ hj] at hp; exact h2 j p hp
+            · intro j hj
+              by_cases hji : j = i
+              · subst hji; simp; exact h3 j hnd
+              · simp only [updLoop_other _ _ _ _ hji] at hj ⊢; exact h3 j hj
+            · intro j hj
+              by_cases hji : j = i
+              · subst hji; exact absurd (h5 j hj) hnd
+              · simp only [updLoop_other _ _ _ _ hji]; exact h5 j hj
+            · intro j
+              by_cases hji : j = i
+              · subst hji; simp
+              · simp only [updLoop_other _ _ _ _ hji]
+                constructor
+                · intro he; simp at he; exact absurd he.symm hji
+                · intro hp
+                  have := (h7 j).2 hp
+                  rw [hfree] at this; cases this
+        · cases hs; exact upd .wait (by intro p hp; cases hp) (Or.inr (by simp))
+    · cases hs
+  | send i r =>
+    simp only [step] at hs
+    obtain ⟨h1, h2, h3, h4, h5, h6, h7⟩ := h
+    split at hs
+    · rename_i p hp
+      split at hs
+      · rename_i hr
+        obtain ⟨a, b, c⟩ := h2 i p hp
+        have hnd : (s.loops i).pc ≠ .done := by rw [hp]; simp
+        have hhold : s.holder = some i := (h7 i).2 ⟨p, hp⟩
+        split at hs
+        · -- last advertisement of the batch: the mutex is released
+          cases hs
+          refine ⟨h1, ?_, ?_, h4, ?_, h6, ?_⟩
+          · intro j q hq
+            by_cases hj : j = i
+            · subst hj; simp at hq
+            · simp only [updLoop_other _ _ _ _ hj] at hq; exact h2 j q hq
+          · intro j hj
+            by_cases hji : j = i
+            · subst hji; simp; exact h3 j hnd
+            · simp only [updLoop_other _ _ _ _ hji] at hj ⊢; exact h3 j hj
+          · intro j hj
+            by_cases hji : j = i
+            · subst hji; exact absurd (h5 j hj) hnd
+            · simp only [updLoop_other _ _ _ _ hji]; exact h5 j hj
+          · intro j
+            by_cases hji : j = i
+            · subst hji; simp
+            · simp only [updLoop_other _ _ _ _ hji]
+              constructor
+              · intro he; cases he
+              · intro hq
+                have := (h7 j).2 hq
+                rw [hhold] at this; simp at this; exact absurd this.symm hji
+        · rename_i hne
+          cases hs
+          refine ⟨h1, ?_, ?_, h4, ?_, h6, ?_⟩
+          · intro j q hq
+            by_cases hj : j = i
+            · subst hj
+              simp at hq
+              subst hq
+              refine ⟨a, ?_, fun x hx => c x (List.mem_of_mem_erase hx)⟩
+              intro he; apply hne; simp [he]
+            · simp only [updLoop_other _ _ _ _ hj] at hq; exact h2 j q hq
+          · intro j hj
+            by_cases hji : j = i
+            · subst hji; simp; exact h3 j hnd
+            · simp only [updLoop_other _ _ _ _ hji] at hj ⊢; exact h3 j hj
+          · intro j hj
+            by_cases hji : j = i
+            · subst hji; exact absurd (h5 j hj) hnd
+            · simp only [updLoop_other _ _ _ _ hji]; exact h5 j hj
+          · intro j
+            by_cases hji : j = i
+            · subst hji; simp [hhold]
+            · simp only [updLoop_other _ _ _ _ hji]; exact h7 j
       · cases hs
     · cases hs
   | wake i =>
     simp only [step] at hs
-    obtain ⟨h1, h2, h3, h4, h5, h6⟩ := h
+    obtain ⟨h1, h2, h3, h4, h5, h6, h7⟩ := h
     split at hs
     · rename_i hw
       cases hs
       have hnd : (s.loops i).pc ≠ .done := by rw [hw]; simp
-      refine ⟨h1, ?_, ?_, h4, ?_, h6⟩
+      have hold : ∀ p, (s.loops i).pc ≠ .send p := by intro p hp; rw [hw] at hp; cases hp
+      refine ⟨h1, ?_, ?_, h4, ?_, h6, holderIff_upd h7 i _ hold (by intro p hp; cases hp)⟩
       · intro j q hq
         by_cases hj : j = i
         · subst hj; simp at hq
@@ -297,162 +368,218 @@ theorem inv_run {s s' : State} {tr : List Event} {os : List Out} (h : Inv s)
         cases hr
         exact ih (inv_step h hs) hr2
 
+/-- a run over a concatenation splits at the seam; the outputs are produced one per event -/
+theorem run_append (a b : List Event) (s s' : State) (os : List Out)
+    (h : run s (a ++ b) = some (s', os)) :
+    ∃ s1 os1 os2, run s a = some (s1, os1) ∧ run s1 b = some (s', os2) ∧ os = os1 ++ os2 ∧
+      os1.length = a.length := by
+  induction a generalizing s os with
+  | nil => exact ⟨s, [], os, rfl, h, rfl, rfl⟩
+  | cons e es ih =>
+    simp only [List.cons_append, run] at h
+    cases hs : step s e with
+    | none => simp [hs] at h
+    | some p =>
+      obtain ⟨s1, o⟩ := p
+      simp only [hs] at h
+      cases hr2 : run s1 (es ++ b) with
+      | none => simp [hr2] at h
+      | some q =>
+        obtain ⟨s2, os2⟩ := q
+        simp only [hr2] at h
+        cases h
+        obtain ⟨t1, o1, o2, r1, r2, he, hlen⟩ := ih s1 os2 hr2
+        refine ⟨t1, o :: o1, o2, ?_, r2, by simp [he], by simp [hlen]⟩
+        simp [run, hs, r1]
 
-/-! ### the in-flight bound -/
 
-/-- advertisements loop `i` may still write without passing its check again -/
-def budget (l : Loop) : Nat :=
-  match l.pc with
-  | .send p => p.length
-  | _ => 0
+/-- splitting a run at a distinguished event -/
+theorem run_split (pre post : List Event) (e : Event) (s : State) (os : List Out)
+    (h : run {} (pre ++ [e] ++ post) = some (s, os)) :
+    ∃ s0 s1 o os1 os2, run {} pre = some (s0, os1) ∧ step s0 e = some (s1, o) ∧
+      run s1 post = some (s, os2) ∧ os.drop (pre.length + 1) = os2 := by
+  rw [List.append_assoc] at h
+  obtain ⟨s0, os1, osr, r1, r2, he, hlen⟩ := run_append pre ([e] ++ post) {} s os h
+  simp only [List.singleton_append, run] at r2
+  cases hs : step s0 e with
+  | none => simp [hs] at r2
+  | some q =>
+    obtain ⟨s1, o⟩ := q
+    simp only [hs] at r2
+    cases hr2 : run s1 post with
+    | none => simp [hr2] at r2
+    | some q2 =>
+      obtain ⟨s2, os2⟩ := q2
+      simp only [hr2] at r2
+      cases r2
+      refine ⟨s0, s1, o, os1, os2, r1, hs, hr2, ?_⟩
+      subst he
+      rw [← hlen]
+      simp
 
-/-- number of frames written by loop `i` in a trace -/
-def sendsOf (i : Nat) : List Event → Nat
-  | [] => 0
-  | .send j _ :: rest => (if j = i then 1 else 0) + sendsOf i rest
-  | _ :: rest => sendsOf i rest
+
+/-! ### silence after StopHunt / Close -/
 
 /-- no StartHunt for `mac` that would be accepted (address-less or link-local target) -/
 def NoRestart (mac : Bytes) (tr : List Event) : Prop :=
   ∀ e ∈ tr, ∀ cls, e = .startHunt mac cls → cls = .v4 ∨ cls = .other6
 
-/-- loop `i` cannot pass its check: its MAC is not hunted, or the handler is closed -/
-def Blocked (s : State) (i : Nat) : Prop := (s.loops i).mac ∉ s.hunt ∨ s.closed = true
+/-- `mac` is quiet: no loop attacking it can pass its check (it is not hunted, or the handler is
+    closed) and none is in the middle of a batch -/
+def Quiet (mac : Bytes) (s : State) : Prop :=
+  (mac ∉ s.hunt ∨ s.closed = true) ∧ ∀ i, (s.loops i).mac = mac → ∀ p, (s.loops i).pc ≠ .send p
 
-theorem blocked_step {s s' : State} {e : Event} {o : Out} (i : Nat) (hi : i < s.nloops)
-    (hb : Blocked s i) (hs : step s e = some (s', o))
-    (hn : ∀ cls, e = .startHunt (s.loops i).mac cls → cls = .v4 ∨ cls = .other6) :
-    i < s'.nloops ∧ (s'.loops i).mac = (s.loops i).mac ∧ Blocked s' i ∧
-    budget (s'.loops i) + (match e with | .send j _ => if j = i then 1 else 0 | _ => 0) ≤ budget (s.loops i) := by
+/-- an effective StopHunt / a Close needs the mutex: no batch is in flight when it happens -/
+theorem free_no_send {s : State} (h : Inv s) (hf : s.holder = none) : ∀ i p, (s.loops i).pc ≠ .send p := by
+  intro i p hp
+  have := (h.holderIff i).2 ⟨p, hp⟩
+  rw [hf] at this; cases this
+
+/-- a quiet MAC stays quiet and gets no advertisement, as long as no StartHunt for it is accepted –
+    or, once the handler is closed, whatever happens -/
+theorem quiet_step {mac : Bytes} {s s' : State} {e : Event} {o : Out} (hq : Quiet mac s)
+    (hs : step s e = some (s', o))
+    (hn : s.closed = true ∨ ∀ cls, e = .startHunt mac cls → cls = .v4 ∨ cls = .other6) :
+    Quiet mac s' ∧ (s.closed = true → s'.closed = true) ∧ naCount mac [o] = 0 := by
+  obtain ⟨hb, hl⟩ := hq
   cases e with
-  | envRepeat v => simp only [step] at hs; cases hs; exact ⟨hi, rfl, hb, Nat.le_refl _⟩
+  | envRepeat v => simp only [step] at hs; cases hs; exact ⟨⟨hb, hl⟩, id, rfl⟩
   | close =>
-    simp only [step] at hs; cases hs
-    exact ⟨hi, rfl, Or.inr rfl, Nat.le_refl _⟩
+    simp only [step] at hs
+    split at hs
+    · cases hs; exact ⟨⟨Or.inr rfl, hl⟩, fun _ => rfl, rfl⟩
+    · cases hs
   | ra r =>
-    simp only [step] at hs
-    split at hs
-    · rename_i s1 ok hp
-      cases hs
-      rcases processRA_cases s r _ ok hp with rfl | rfl | ⟨hdr, o', rfl⟩
-      · exact ⟨hi, rfl, hb, Nat.le_refl _⟩
-      · exact ⟨hi, rfl, hb, Nat.le_refl _⟩
-      · obtain ⟨f1, f2, f3, f4, _, _⟩ := learn_fields { s with rep := s.rep + 1 } r hdr o'
-        refine ⟨by rw [f4]; exact hi, by rw [f3], ?_, by rw [f3]; exact Nat.le_refl _⟩
-        unfold Blocked; rw [f1, f2, f3]; exact hb
-    · cases hs
-  | stopHunt mac eff =>
-    simp only [step] at hs
-    split at hs
-    · cases hs
-      refine ⟨hi, rfl, ?_, Nat.le_refl _⟩
-      rcases hb with hb | hb
-      · left; intro hm; exact hb (List.mem_of_mem_erase hm)
-      · right; exact hb
-    · cases hs; exact ⟨hi, rfl, hb, Nat.le_refl _⟩
-  | startHunt mac cls =>
-    simp only [step] at hs
-    split at hs
-    · cases hs; exact ⟨hi, rfl, hb, Nat.le_refl _⟩
-    · split at hs
-      · cases hs; exact ⟨hi, rfl, hb, Nat.le_refl _⟩
+    have ho : naCount mac [o] = 0 := by
+      simp only [step] at hs
+      split at hs
+      · cases hs
       · split at hs
-        · cases hs; exact ⟨hi, rfl, hb, Nat.le_refl _⟩
-        · rename_i hc1 hc2 hnm
-          cases hs
-          have hne : i ≠ s.nloops := by omega
-          have hmac : mac ≠ (s.loops i).mac := by
-            intro he; subst he
-            rcases hn cls rfl with h | h
-            · exact hc1 h
-            · exact hc2 h
-          refine ⟨by simp; omega, by simp only [updLoop_other _ _ _ _ hne], ?_, by
-            simp only [updLoop_other _ _ _ _ hne]; exact Nat.le_refl _⟩
-          unfold Blocked
-          simp only [updLoop_other _ _ _ _ hne]
-          rcases hb with hb | hb
-          · left; intro hm
-            simp at hm
-            rcases hm with hm | hm
-            · exact hb hm
-            · exact hmac hm.symm
-          · right; exact hb
+        · cases hs; rfl
+        · cases hs
+    rcases step_ra_cases s r s' o hs with rfl | rfl | ⟨hdr, o', rfl⟩
+    · exact ⟨⟨hb, hl⟩, id, ho⟩
+    · exact ⟨⟨hb, hl⟩, id, ho⟩
+    · obtain ⟨f1, f2, f3, _, _, _, _⟩ := learn_fields { s with rep := s.rep + 1 } r hdr o'
+      refine ⟨⟨?_, ?_⟩, ?_, ho⟩
+      · rw [f1, f2]; exact hb
+      · rw [f3]; exact hl
+      · rw [f2]; exact id
+  | stopHunt m eff =>
+    simp only [step] at hs
+    split at hs
+    · split at hs
+      · cases hs
+        refine ⟨⟨?_, hl⟩, id, rfl⟩
+        rcases hb with hb | hb
+        · left; intro hm; exact hb (List.mem_of_mem_erase hm)
+        · right; exact hb
+      · cases hs
+    · cases hs; exact ⟨⟨hb, hl⟩, id, rfl⟩
+  | startHunt m cls =>
+    simp only [step] at hs
+    split at hs
+    · cases hs; exact ⟨⟨hb, hl⟩, id, rfl⟩
+    · split at hs
+      · cases hs; exact ⟨⟨hb, hl⟩, id, rfl⟩
+      · split at hs
+        · cases hs
+        · split at hs
+          · cases hs; exact ⟨⟨hb, hl⟩, id, rfl⟩
+          · rename_i hc1 hc2 _ hnm
+            cases hs
+            refine ⟨⟨?_, ?_⟩, id, rfl⟩
+            · rcases hb with hb | hb
+              · rcases hn with hcl | hn
+                · right; exact hcl
+                · left; intro hm
+                  simp at hm
+                  rcases hm with hm | hm
+                  · exact hb hm
+                  · subst hm
+                    rcases hn cls rfl with h | h
+                    · exact hc1 h
+                    · exact hc2 h
+              · right; exact hb
+            · intro i hi p hp
+              by_cases hin : i = s.nloops
+              · subst hin; simp at hp
+              · simp only [updLoop_other _ _ _ _ hin] at hi hp; exact hl i hi p hp
   | check j =>
     simp only [step] at hs
     split at hs
-    · rename_i hc
-      by_cases hji : j = i
-      · subst hji
-        -- the blocked loop ends here
-        have hcond : (s.loops j).mac ∉ s.hunt ∨ s.closed = true := hb
-        simp only [hcond, if_true] at hs
-        cases hs
-        refine ⟨hi, by simp, ?_, by simp [budget]⟩
-        unfold Blocked at hb ⊢; simpa using hb
-      · have hij : i ≠ j := fun h => hji h.symm
-        have key : ∀ (l : Loop) (o' : Out), (s' , o) = ({ s with loops := updLoop s.loops j l }, o') →
-            i < s'.nloops ∧ (s'.loops i).mac = (s.loops i).mac ∧ Blocked s' i ∧
-              budget (s'.loops i) + 0 ≤ budget (s.loops i) := by
-          intro l o' he
-          cases he
-          refine ⟨hi, by simp only [updLoop_other _ _ _ _ hij], ?_, by
-            simp only [updLoop_other _ _ _ _ hij]; exact Nat.le_refl _⟩
-          unfold Blocked; simp only [updLoop_other _ _ _ _ hij]; exact hb
+    · rename_i hcf
+      obtain ⟨hc, _⟩ := hcf
+      -- loop j moves to wait / done, or – only when its MAC is hunted and the handler open – to send
+      have other : ∀ (pc' : Pc) (hd : Option Nat), (∀ p, pc' ≠ .send p) →
+          Quiet mac { s with loops := updLoop s.loops j { s.loops j with pc := pc' }, holder := hd } := by
+        intro pc' hd hpc
+        refine ⟨hb, ?_⟩
+        intro i hi p hp
+        by_cases hij : i = j
+        · subst hij; simp at hp; exact hpc p hp
+        · simp only [updLoop_other _ _ _ _ hij] at hi hp; exact hl i hi p hp
+      split at hs
+      · cases hs; exact ⟨other .done _ (by intro p hp; cases hp), id, rfl⟩
+      · rename_i hcond
         split at hs
-        · cases hs; exact key _ _ rfl
         · split at hs
-          · split at hs
-            · cases hs; exact key _ _ rfl
-            · cases hs; exact key _ _ rfl
-          · cases hs; exact key _ _ rfl
+          · cases hs; exact ⟨other .wait _ (by intro p hp; cases hp), id, rfl⟩
+          · cases hs
+            refine ⟨⟨hb, ?_⟩, id, rfl⟩
+            intro i hi p hp
+            by_cases hij : i = j
+            · subst hij
+              simp only [updLoop_same] at hi
+              -- the check passed, so the loop's MAC is hunted and the handler is open: it is not `mac`
+              rcases hb with hb | hb
+              · exact hcond (Or.inl (by rw [hi]; exact hb))
+              · exact hcond (Or.inr (by simp [hb]))
+            · simp only [updLoop_other _ _ _ _ hij] at hi hp; exact hl i hi p hp
+        · cases hs; exact ⟨other .wait _ (by intro p hp; cases hp), id, rfl⟩
     · cases hs
   | send j r =>
     simp only [step] at hs
     split at hs
     · rename_i p hp
+      have hjm : (s.loops j).mac ≠ mac := fun he => hl j he p hp
       split at hs
-      · rename_i hr
-        cases hs
-        by_cases hji : j = i
-        · subst hji
-          refine ⟨hi, by simp, ?_, ?_⟩
-          · unfold Blocked at hb ⊢; simpa using hb
-          · simp only [updLoop_same, if_true]
-            have hlen : (p.erase r).length = p.length - 1 := List.length_erase_of_mem hr
-            have hpos : 0 < p.length := List.length_pos_of_mem hr
-            by_cases he : (p.erase r).isEmpty = true
-            · simp only [budget, he, if_true, hp]; omega
-            · have he' : (p.erase r).isEmpty = false := by simpa using he
-              simp only [budget, he', hp, Bool.false_eq_true, if_false]; omega
-        · have hij : i ≠ j := fun h => hji h.symm
-          refine ⟨hi, by simp only [updLoop_other _ _ _ _ hij], ?_, by
-            simp only [updLoop_other _ _ _ _ hij, hji, if_false]; exact Nat.le_refl _⟩
-          unfold Blocked; simp only [updLoop_other _ _ _ _ hij]; exact hb
+      · split at hs
+        · cases hs
+          refine ⟨⟨hb, ?_⟩, id, by simp [naCount, hjm]⟩
+          intro i hi q hq
+          by_cases hij : i = j
+          · subst hij; simp at hq
+          · simp only [updLoop_other _ _ _ _ hij] at hi hq; exact hl i hi q hq
+        · cases hs
+          refine ⟨⟨hb, ?_⟩, id, by simp [naCount, hjm]⟩
+          intro i hi q hq
+          by_cases hij : i = j
+          · subst hij; simp only [updLoop_same] at hi; exact hjm hi
+          · simp only [updLoop_other _ _ _ _ hij] at hi hq; exact hl i hi q hq
       · cases hs
     · cases hs
   | wake j =>
     simp only [step] at hs
     split at hs
-    · rename_i hw
-      cases hs
-      by_cases hji : j = i
-      · subst hji
-        refine ⟨hi, by simp, ?_, by simp [budget, hw]⟩
-        unfold Blocked at hb ⊢; simpa using hb
-      · have hij : i ≠ j := fun h => hji h.symm
-        refine ⟨hi, by simp only [updLoop_other _ _ _ _ hij], ?_, by
-          simp only [updLoop_other _ _ _ _ hij]; exact Nat.le_refl _⟩
-        unfold Blocked; simp only [updLoop_other _ _ _ _ hij]; exact hb
+    · cases hs
+      refine ⟨⟨hb, ?_⟩, id, rfl⟩
+      intro i hi p hp
+      by_cases hij : i = j
+      · subst hij; simp at hp
+      · simp only [updLoop_other _ _ _ _ hij] at hi hp; exact hl i hi p hp
     · cases hs
 
-/-- **in-flight bound**: once loop `i` is blocked (its MAC was removed from the hunt list, or the
-    handler was closed) and is not restarted, it writes at most the advertisements of the iteration
-    it is in – none if it is not between its check and the end of its sends. -/
-theorem blocked_run : ∀ (tr : List Event) (s s' : State) (os : List Out) (i : Nat), i < s.nloops →
-    Blocked s i → NoRestart (s.loops i).mac tr → run s tr = some (s', os) →
-    sendsOf i tr ≤ budget (s.loops i)
-  | [], _, _, _, _, _, _, _, _ => by simp [sendsOf]
-  | e :: es, s, s', os, i, hi, hb, hn, hr => by
+theorem naCount_cons (mac : Bytes) (o : Out) (os : List Out) :
+    naCount mac (o :: os) = naCount mac [o] + naCount mac os := by
+  cases o <;> simp [naCount]
+
+/-- **silence**: from a state in which `mac` is quiet, no trace without an accepted StartHunt for it
+    (any trace at all once the handler is closed) produces a forged advertisement to `mac` -/
+theorem quiet_run : ∀ (tr : List Event) (mac : Bytes) (s s' : State) (os : List Out),
+    Quiet mac s → (s.closed = true ∨ NoRestart mac tr) → run s tr = some (s', os) → naCount mac os = 0
+  | [], _, _, _, _, _, _, hr => by simp [run] at hr; obtain ⟨_, rfl⟩ := hr; rfl
+  | e :: es, mac, s, s', os, hq, hn, hr => by
     simp only [run] at hr
     cases hs : step s e with
     | none => simp [hs] at hr
@@ -463,10 +590,17 @@ theorem blocked_run : ∀ (tr : List Event) (s s' : State) (os : List Out) (i : 
       | none => simp [hr2] at hr
       | some q =>
         obtain ⟨s2, os2⟩ := q
-        obtain ⟨a, b, c, d⟩ := blocked_step i hi hb hs (fun cls he => hn e (by simp) cls he)
-        have ih := blocked_run es s1 s2 os2 i a c (by
-          rw [b]; intro e' he' cls hc; exact hn e' (by simp [he']) cls hc) hr2
-        cases e <;> simp only [sendsOf] <;> simp only at d <;> omega
+        simp only [hr2] at hr
+        cases hr
+        obtain ⟨a, b, c⟩ := quiet_step hq hs (by
+          rcases hn with h | h
+          · exact Or.inl h
+          · exact Or.inr (fun cls he => h e (by simp) cls he))
+        have ih := quiet_run es mac s1 _ os2 a (by
+          rcases hn with h | h
+          · exact Or.inl (b h)
+          · exact Or.inr (fun e' he' cls hc => h e' (by simp [he']) cls hc)) hr2
+        rw [naCount_cons, c, ih]
 
 
 /-! ### learning a router from an advertisement -/
